@@ -681,6 +681,12 @@ class FunctionAnalysis:
                     r = self.eff.repo.resolve_rel(mi.imports[b][1], mi.imports[b][2])
                     if r and r[0] == 'class':
                         stack.append(r[1])
+                elif '.' in b:
+                    head, _, tail = b.partition('.')
+                    if head in mi.imports and mi.imports[head][0] == 'rel':
+                        r = self.eff.repo.resolve_rel(mi.imports[head][1], mi.imports[head][2])
+                        if r and r[0] == 'module' and tail in self.eff.repo.modules[r[1]].classes:
+                            stack.append(self.eff.repo.modules[r[1]].classes[tail])
         return None
 
     def _resolve_name(self, name: str):
